@@ -275,8 +275,17 @@ impl<'a> Reader<'a> {
         Ok(())
     }
 
-    fn read_file(&mut self) -> anyhow::Result<()> {
-        self.read_signature()?;
+    /// Reads all intact records.  A record (or the signature) cut short by a crash while
+    /// it was being appended ends the log.  Returns the length of the intact prefix.
+    fn read_file(&mut self) -> anyhow::Result<u64> {
+        use std::io::Seek;
+        if let Err(err) = self.read_signature() {
+            return match err.downcast_ref::<std::io::Error>() {
+                Some(io) if io.kind() == std::io::ErrorKind::UnexpectedEof => Ok(0),
+                _ => Err(err),
+            };
+        }
+        let mut valid = self.r.stream_position()?;
         loop {
             let mut len = match self.read_u16() {
                 Ok(r) => r,
@@ -284,27 +293,37 @@ impl<'a> Reader<'a> {
                 Err(err) => bail!(err),
             };
             let mask = 0b1000_0000_0000_0000;
-            if len & mask == 0 {
-                self.read_path(len as usize)?;
+            let record = if len & mask == 0 {
+                self.read_path(len as usize)
             } else {
                 len &= !mask;
-                self.read_build(len as usize)?;
+                self.read_build(len as usize)
+            };
+            match record {
+                Ok(()) => valid = self.r.stream_position()?,
+                Err(err) if err.kind() == std::io::ErrorKind::UnexpectedEof => break,
+                Err(err) => bail!(err),
             }
         }
-        Ok(())
+        Ok(valid)
     }
 
     /// Reads an on-disk database, loading its state into the provided Graph/Hashes.
-    fn read(f: &mut File, graph: &mut Graph, hashes: &mut Hashes) -> anyhow::Result<IdMap> {
+    /// Also returns the length of the intact prefix of the file.
+    fn read(
+        f: &mut File,
+        graph: &mut Graph,
+        hashes: &mut Hashes,
+    ) -> anyhow::Result<(IdMap, u64)> {
         let mut r = Reader {
             r: std::io::BufReader::new(f),
             ids: IdMap::default(),
             graph,
             hashes,
         };
-        r.read_file()?;
+        let valid = r.read_file()?;
 
-        Ok(r.ids)
+        Ok((r.ids, valid))
     }
 }
 
@@ -316,8 +335,16 @@ pub fn open(path: &Path, graph: &mut Graph, hashes: &mut Hashes) -> anyhow::Resu
         .open(path)
     {
         Ok(mut f) => {
-            let ids = Reader::read(&mut f, graph, hashes)?;
-            Ok(Writer::from_opened(ids, f))
+            let (ids, valid) = Reader::read(&mut f, graph, hashes)?;
+            // Drop a tail left by an interrupted write, so that new records follow intact ones.
+            if f.metadata()?.len() > valid {
+                f.set_len(valid)?;
+            }
+            let mut w = Writer::from_opened(ids, f);
+            if valid == 0 {
+                w.write_signature()?;
+            }
+            Ok(w)
         }
         Err(err) if err.kind() == std::io::ErrorKind::NotFound => {
             let w = Writer::create(path)?;
